@@ -21,20 +21,22 @@ Init == /\ ps \in [1 .. N -> U]
         /\ Stage => G!SameStage(ps)
         /\ done = FALSE
 
-Good == { o \in G!Outs(ps) : o.ok }
+\* the outcome of every grouping, evaluated once per case
 Emit == /\ ~done
         /\ done' = TRUE
         /\ UNCHANGED ps
-        /\ PrintT(<<"CASE", ToJson([k   |-> Kind,
-                                    ps  |-> ps,
-                                    out |-> G!Combine(ps),
-                                    any |-> Good # {},
-                                    v   |-> IF Good = {} THEN G!Dummy ELSE (CHOOSE o \in Good : TRUE).v,
-                                    bad |-> { t \in G!Trees(N) : ~G!Eval(t, ps).ok }])>>)
+        /\ LET evs  == { <<t, G!Eval(t, ps)>> : t \in G!Trees(N) }
+               good == { e[2] : e \in { x \in evs : x[2].ok } }
+           IN  /\ Cardinality(good) <= 1                 \* PcztGrowth!ThmDefinedAgree: `v` is THE result
+               /\ PrintT(<<"CASE", ToJson([k   |-> Kind,
+                                           ps  |-> ps,
+                                           out |-> G!Combine(ps),
+                                           any |-> good # {},
+                                           v   |-> IF good = {} THEN G!Dummy ELSE (CHOOSE o \in good : TRUE).v,
+                                           bad |-> { e[1] : e \in { x \in evs : ~x[2].ok } }])>>)
 Spec == Init /\ [][Emit]_<<ps, done>>
 
-\* the emitted `v` is the result of every grouping that succeeds
-DefinedAgree == G!ThmDefinedAgree(ps)
+\* (checks/c13.py requires |U|^N emitted cases: Emit is never disabled by its Cardinality conjunct)
 
 ASSUME PrintT(<<"TREES", ToJson([n |-> N, trees |-> G!Trees(N)])>>)
 =============================================================================================
